@@ -1,10 +1,13 @@
 import Driver.Util
 import ClairModel.Model.Fetch
+import ClairModel.Model.FetchReader
+import ClairModel.Model.FetchSched
+import ClairModel.Model.FetchMisc
 
 /-
   Line protocol of the fetcher model (property C09).
 
-    layer <api> <digest> <uri> <mediatype> <refused> <status> <ctype> <term> <body> <sum> <z> <tar>
+    layer <api> <digest> <uri> <mediatype> <refused> <status> <ctype> <term> <body> <sum> <z> <tar> <disk>
         queue one layer description + the scripted response for the next realize
         api        new | old        RealizeDescriptions / deprecated Realize
         digest     hex of the digest string as given in the description
@@ -20,14 +23,37 @@ import ClairModel.Model.Fetch
         z          x | =<hex>       what the gzip/zstd reader makes of body+term when the harness
                    runs the library directly (x = error or not compressed)
         tar        0 | 1            tarfs.New accepts the expected payload
-      answer: queued
+        disk       - | <n>          the spool file takes n bytes, then writes fail
+      the response is the one the fetcher's body reader sees for the FIRST request it makes
+      (after redirects and content decoding by the HTTP client); answer: queued
     realize <id> <hold>      run the queued layers as one RealizeDescriptions call
-      answer: err | ok <view>;<view>...    view = t:<len>:<fnv1a64 of the bytes> | d
+      answer: err [r:<n>] | ok <view>;<view>... r:<n>,<n>...
+              view = t:<len>:<fnv1a64 of the bytes> | d ;  r = requests made per layer
+              (for err only when the call has one layer)
     close <id>               FetchProxy.Close of a held realize;  answer: closed
+    release <id>             the FetchProxy of a realize that was not held is closed now; answer: closed
+    consume <id> <idx> <script>   consumers of layer idx of realize id (before or after its close)
+        script = op,op,...   o<c> Layer.Reader() for consumer c | r<c>:<n> Read | a<c>:<off>:<n> ReadAt
+                             | s<c>:<whence>:<off> Seek | w<c> io.Copy to the end
+      answer: per op  o | <len>:<fnv> | F (EOF) | p<pos> | E (error)
+    spawn <tid>              the queued layer becomes a task parked before the singleflight; answer: parked
+    enter <tid>              answer: join | lead | res <tid>=<r>;...     r = err | retry | ok:<view>
+    serve <tid>              the request of the flight led by tid is answered; answer: res ...
+    tclose <tid>             FetchProxy.Close of a finished task; answer: closed
+    chk <status> <code,code,...>     httputil.CheckResponse; answer: ok | err
+    dscan <prev> <kind> <text>       Digest parsed from prev (hex of the text), then Scan(nil | string | other);
+                                     kind = n | s | o; answer: <err 0|1> <algo> <checksum> <String()> (hex)
+    sniff <bytes>            zreader.detectCompression; answer: gzip | zstd | bzip2 | none | other
     reset                    new arena; answer: ok
 -/
 namespace Driver.C09
 open ClairModel ClairModel.Fetch ClairModel.Bytes
+
+open ClairModel.FetchReader in
+structure LayerSt where
+  id : Nat
+  idx : Nat
+  ls : LState
 
 structure Pending where
   req : Req
@@ -43,6 +69,12 @@ structure DState where
   /-- expected payload ↦ tarfs.New verdict, for every layer line since the last reset
       (a layer served from the arena was described by an earlier line) -/
   tars : List (Bytes × Bool) := []
+  /-- every layer line since the last reset (parameters of the scheduled tasks) -/
+  hist : List Pending := []
+  /-- views of the realizes whose layers can still be consumed -/
+  views : List (Nat × List View) := []
+  layers : List LayerSt := []
+  sched : FetchSched.SState := {}
 
 def bytesOf (s : String) : Option Bytes := (Driver.unhex s).map (·.map (·.toNat))
 
@@ -61,7 +93,7 @@ def algoOf (digest : Bytes) : Bytes :=
   | none => []
 
 def parseLayer : List String → Option Pending
-  | [api, dig, uri, mt, refused, status, ct, term, body, sum, z, tar] => do
+  | [api, dig, uri, mt, refused, status, ct, term, body, sum, z, tar, disk] => do
     let legacy ← (if api == "old" then some true else if api == "new" then some false else none)
     let dig ← bytesOf dig
     let (uriB, uriOK) ← (if uri == "e" then some (([] : Bytes), true) else if uri == "b" then some ([98], false)
@@ -73,8 +105,9 @@ def parseLayer : List String → Option Pending
     let body ← bytesOf body
     let sum ← bytesOf sum
     let zv ← (if z == "x" then some none else if z.toList.head? == some '=' then (bytesOf (String.ofList (z.toList.drop 1))).map some else none)
+    let disk ← (if disk == "-" then some none else disk.toNat?.map some)
     let rq : Req := { legacy := legacy, digest := dig, uri := uriB, mediaType := strOf mt,
-                      resp := { refused := refused == "1", status := st, ctype := strOf ct, body := body, term := term } }
+                      resp := { refused := refused == "1", status := st, ctype := strOf ct, body := body, term := term, disk := disk } }
     pure { req := rq, algo := algoOf rq.key, sum := sum, z := zv, tar := tar == "1", uriOK := uriOK }
   | _ => none
 
@@ -109,6 +142,72 @@ def render : Out → String
   | .closed => "closed"
   | .ok vs => "ok " ++ ";".intercalate (vs.map renderView)
 
+/-! ### consumer scripts -/
+
+section consume
+open ClairModel.FetchReader
+
+def splitOnChar (c : Char) (s : String) : List String := s.splitOn (String.singleton c)
+
+def parseInt (s : String) : Option Int :=
+  if s.startsWith "-" then (s.drop 1).toNat?.map (fun n => -(n : Int)) else s.toNat?.map (fun n => (n : Int))
+
+def parseCOp (t : String) : Option (Nat × ROp) :=
+  match t.toList with
+  | k :: c :: rest =>
+    let cid := c.toNat - '0'.toNat
+    let args := (splitOnChar ':' (String.ofList rest)).filter (· ≠ "")
+    match k, args with
+    | 'o', [] => some (cid, .open_)
+    | 'w', [] => some (cid, .copy)
+    | 'r', [n] => n.toNat?.map fun n => (cid, .read n)
+    | 'a', [off, n] => do
+      let off ← parseInt off
+      let n ← n.toNat?
+      pure (cid, .readAt off n)
+    | 's', [w, off] => do
+      let w ← w.toNat?
+      let off ← parseInt off
+      pure (cid, .seek w off)
+    | _, _ => none
+  | _ => none
+
+def renderROut : ROut → String
+  | .opened => "o"
+  | .bytes b => s!"{b.length}:{hex64 (fnv1a b)}"
+  | .eof => "F"
+  | .pos p => s!"p{p}"
+  | .err => "E"
+
+def lstateOf : View → LState
+  | .tar p => { payload := p }
+  | .dir => { payload := [], closed := true }   -- no reader: `Layer.Reader()` fails
+
+end consume
+
+def kindName : Kind → String
+  | .gzip => "gzip"
+  | .zstd => "zstd"
+  | .bzip2 => "bzip2"
+  | .none => "none"
+  | .other => "other"
+
+def renderRes : FetchSched.Res → String
+  | .err => "err"
+  | .retry => "retry"
+  | .ok v => "ok:" ++ renderView v
+
+def renderSOut : FetchSched.SOut → String
+  | .parked => "parked"
+  | .join => "join"
+  | .lead => "lead"
+  | .closed => "closed"
+  | .bad => "bad"
+  | .results rs => "res " ++ ";".intercalate (rs.map fun r => s!"{r.1}={renderRes r.2}")
+
+def natList (s : String) : Option (List Nat) :=
+  if s == "-" then some [] else (s.splitOn ",").mapM (·.toNat?)
+
 def stepLine (s : DState) (l : String) : DState × String :=
   if l == "reset" then ({}, "ok") else
   match Driver.words l with
@@ -116,21 +215,92 @@ def stepLine (s : DState) (l : String) : DState × String :=
     match parseLayer rest with
     | some p =>
       let expected := match p.z with | some out => out | none => p.req.resp.body
-      ({ s with pending := s.pending ++ [p], tars := (expected, p.tar) :: s.tars }, "queued")
+      ({ s with pending := s.pending ++ [p], hist := p :: s.hist, tars := (expected, p.tar) :: s.tars }, "queued")
     | none => (s, "bad-op")
   | ["realize", id, hold] =>
     match id.toNat? with
     | none => (s, "bad-op")
     | some id =>
       let P := paramsOf s.pending s.tars
-      let (st', o) := step P s.st (.realize id (s.pending.map (·.req)) (hold == "1"))
-      ({ s with st := st', pending := [] }, render o)
+      let reqs := s.pending.map (·.req)
+      let rc := realizeReqs P s.st.arena reqs
+      let rcs := " r:" ++ ",".intercalate (rc.map toString)
+      let (st', o) := step P s.st (.realize id reqs (hold == "1"))
+      let (views, tail) := match o with
+        | .ok vs => ((id, vs) :: s.views.filter (fun v => v.1 != id), rcs)
+        | _ => (s.views, if reqs.length == 1 then rcs else "")
+      ({ s with st := st', pending := [], views := views, layers := s.layers.filter (fun x => x.id != id) }, render o ++ tail)
   | ["close", id] =>
     match id.toNat? with
     | none => (s, "bad-op")
     | some id =>
       let (st', o) := step (paramsOf [] []) s.st (.close id)
-      ({ s with st := st' }, render o)
+      let layers := s.layers.map fun x => if x.id == id then { x with ls := x.ls.close } else x
+      let views := s.views.map fun v => if v.1 == id then (v.1, v.2.map fun _ => View.dir) else v
+      ({ s with st := st', layers := layers, views := views }, render o)
+  | ["release", id] =>
+    match id.toNat? with
+    | none => (s, "bad-op")
+    | some id =>
+      let layers := s.layers.map fun x => if x.id == id then { x with ls := x.ls.close } else x
+      let views := s.views.map fun v => if v.1 == id then (v.1, v.2.map fun _ => View.dir) else v
+      ({ s with layers := layers, views := views }, "closed")
+  | ["consume", id, idx, script] =>
+    match id.toNat?, idx.toNat?, (splitOnChar ',' script).mapM parseCOp with
+    | some id, some idx, some ops =>
+      let cur : Option FetchReader.LState :=
+        match s.layers.find? (fun x => x.id == id && x.idx == idx) with
+        | some x => some x.ls
+        | none =>
+          match s.views.find? (fun v => v.1 == id) with
+          | some v => (v.2[idx]?).map lstateOf
+          | none => none
+      match cur with
+      | none => (s, "bad-op")
+      | some ls =>
+        let (ls', outs) := FetchReader.run ls ops
+        let layers := ⟨id, idx, ls'⟩ :: s.layers.filter (fun x => !(x.id == id && x.idx == idx))
+        ({ s with layers := layers }, ",".intercalate (outs.map fun o => renderROut o.2))
+    | _, _, _ => (s, "bad-op")
+  | ["spawn", tid] =>
+    match tid.toNat?, s.pending with
+    | some tid, [p] =>
+      let (ss, o) := FetchSched.step (paramsOf s.hist s.tars) s.sched (.spawn tid p.req)
+      ({ s with sched := ss, pending := [] }, renderSOut o)
+    | _, _ => (s, "bad-op")
+  | ["sniff", b] =>
+    match bytesOf b with
+    | some b => (s, kindName (detectCompression b))
+    | none => (s, "bad-op")
+  | [op, tid] =>
+    match tid.toNat? with
+    | none => (s, "bad-op")
+    | some tid =>
+      let sop : Option FetchSched.SOp :=
+        if op == "enter" then some (.enter tid) else if op == "serve" then some (.serve tid)
+        else if op == "tclose" then some (.close tid) else none
+      match sop with
+      | some sop =>
+        let (ss, o) := FetchSched.step (paramsOf s.hist s.tars) s.sched sop
+        ({ s with sched := ss }, renderSOut o)
+      | none => (s, "bad-op")
+  | ["chk", status, codes] =>
+    match status.toNat?, natList codes with
+    | some st, some cs => (s, if FetchMisc.checkResponse cs st then "ok" else "err")
+    | _, _ => (s, "bad-op")
+  | ["dscan", prev, kind, text] =>
+    match bytesOf prev, bytesOf text with
+    | some prev, some text =>
+      let d0 := (FetchMisc.unmarshal {} prev).1
+      let arg : Option FetchMisc.ScanArg :=
+        if kind == "n" then some .null else if kind == "s" then some (.str text) else if kind == "o" then some .other else none
+      match arg with
+      | none => (s, "bad-op")
+      | some arg =>
+        let (d, e) := FetchMisc.scan d0 arg
+        let hx := fun (b : Bytes) => Driver.hex (b.map UInt8.ofNat)
+        (s, s!"{if e then 1 else 0} {hx d.algo} {hx d.checksum} {hx (FetchMisc.value d)}")
+    | _, _ => (s, "bad-op")
   | _ => (s, "bad-op")
 
 end Driver.C09
